@@ -4,7 +4,10 @@ import vf
 from checks import c01
 
 COMPILED = {"openssl": 1, "gnutls": 2}
-ENVVALS = [None, "", "openssl", "gnutls", "GNUTLS", "OpenSSL", "mbedtls", "junk", "gnutls ", " gnutls", "gnutl", "openssl,gnutls", "2"]
+ENVVALS = [None, "", "openssl", "gnutls", "GNUTLS", "OpenSSL", "mbedtls", "junk", "gnutls ", " gnutls", "gnutl", "openssl,gnutls", "2",
+           # values as a careless env file or shell would pass them: quoted, with line ends, separators, a path or a version
+           '"gnutls"', "'gnutls'", '"gnutls', "gnutls'", "`gnutls`", "gnutls\n", "gnutls\r", "gnutls;", "gnutls,", "gnutls:", "=gnutls", "gnutls=1", "libgnutls",
+           "gnutls3", "gnutls.so", "/gnutls", "gnutls/", "(gnutls)", "[gnutls]", "{gnutls}", "<gnutls>", "gnutls\t", "\tgnutls", "gnuttls", "gntls", "gnutls#", "$gnutls"]
 
 
 def run(tier, seed, replay):
